@@ -416,6 +416,62 @@ Definition run_node (c : case) : option (list (kind * tensor)) :=
         then one (kind_of (in_dt x)) (scatter_elements red (attr_int c "axis" 0) (in_t x) (in_t i) (in_t u)) else None
     | _, _ => None
     end
+  else if String.eqb op "Clip" then
+    match inp c 0 with
+    | Some x =>
+        let dt := in_dt x in
+        (* a bound: attribute (opset 6, floats only) or scalar (0-D) input of the data type *)
+        let bound (name : string) (i : nat) :=
+          match find_attr name (c_attrs c), inp c i with
+          | Some (AFloat v), None => if is_float dt then Some (Some v) else None
+          | None, Some y => if dtype_eqb (in_dt y) dt && (List.length (shape (in_t y)) =? 0)
+                            then match data (in_t y) with [v] => Some (Some v) | _ => None end else None
+          | None, None => Some None
+          | _, _ => None
+          end in
+        match bound "min"%string 1, bound "max"%string 2 with
+        | Some lo, Some hi => if is_num dt && (nin <=? 3) then one (kind_of dt) (Some (clip lo hi (in_t x))) else None
+        | _, _ => None
+        end
+    | None => None
+    end
+  else if String.eqb op "Relu" then
+    match c_inputs c with
+    | [Some a] => if is_float (in_dt a) then one KFloat (Some (unop relu_val (in_t a))) else None   (* rten: f32 only *)
+    | _ => None
+    end
+  else if String.eqb op "LeakyRelu" then
+    match c_inputs c with
+    | [Some a] => match find_attr "alpha" (c_attrs c) with
+                  | Some (AFloat al) => if is_float (in_dt a) then one KFloat (Some (unop (leaky_relu_val al) (in_t a))) else None
+                  | _ => None      (* the default alpha 0.01 is not an integer *)
+                  end
+    | _ => None
+    end
+  else if String.eqb op "Floor" || String.eqb op "Ceil" || String.eqb op "Round" then
+    (* integer-valued floats are fixed points *)
+    match c_inputs c with
+    | [Some a] => if is_float (in_dt a) then one KFloat (Some (in_t a)) else None
+    | _ => None
+    end
+  else if String.eqb op "IsNaN" || String.eqb op "IsInf" then
+    match c_inputs c with
+    | [Some a] => if is_float (in_dt a) && negb (has_attr c "detect_negative") && negb (has_attr c "detect_positive")
+                  then one KInt (Some (unop (fun _ => 0%Z) (in_t a))) else None
+    | _ => None
+    end
+  else if String.eqb op "Max" || String.eqb op "Min" || String.eqb op "Sum" then
+    match all_inputs c with
+    | Some l =>
+        match same_dt l with
+        | Some dt => if is_num dt then
+            one (kind_of dt) (variadic (fun a b => Some (if String.eqb op "Max" then Z.max a b
+                                                        else if String.eqb op "Min" then Z.min a b else (a + b)%Z))
+                                       (map in_t l)) else None
+        | None => None
+        end
+    | None => None
+    end
   else if String.eqb op "MaxPool" then
     match c_inputs c, attr_ints c "kernel_shape" with
     | [Some x], Some [kh; kw] =>
